@@ -42,9 +42,10 @@ ASSUMPTIONS = [
 LATTICE = [-1.0, -0.75, -0.5, -0.25, 0.0, 0.25, 0.5, 0.75, 1.0, None]
 OPS = ["FuzzyOr", "FuzzyAnd", "FuzzyNot", "FuzzyUnion", "FuzzyWeightedUnion", "FuzzySelectedUnion", "FuzzyXOr"]
 WEIGHT_FAMILY = {
-    1: [[1], [2.5], [-1]],
-    2: [[1, 1], [1, 0], [0, 1], [1, 2], [0.5, 0.25], [3, -1]],
-    3: [[1, 1, 1], [1, 0, 0], [0, 0, 1], [1, 2, 3], [0.5, 0.25, 2], [1, 0, 2], [2, -1, 1]],
+    1: [[1], [2.5], [-1], [1.000004], [0.9999993]],
+    2: [[1, 1], [1, 0], [0, 1], [1, 2], [0.5, 0.25], [3, -1], [0.6, 0.400004], [0.5, 0.4999999], [100000, 0.25]],
+    3: [[1, 1, 1], [1, 0, 0], [0, 0, 1], [1, 2, 3], [0.5, 0.25, 2], [1, 0, 2], [2, -1, 1], [0.333333, 0.333333, 0.333333],
+        [0.2, 0.3, 0.500007]],  # rounded shares: the sum is close to one without being one
 }
 
 
@@ -282,6 +283,12 @@ def random_op_case(draw):
             w[0] = w[0] + 1
         if abs(sum(w)) < 1e-3:
             w = [1] * n
+        if draw(st.integers(0, 5)) == 0:
+            # shares written with a few decimals: they add up to nearly (not exactly) one, or to nearly a round number
+            total, digits = sum(w), draw(st.integers(3, 8))
+            w = [round(x / total * draw(st.sampled_from([1, 1, 2, 10])), digits) for x in w]
+            if abs(sum(w)) < 1e-3:
+                w = [1] * n
         params = {"Weights": w}
     elif op == "FuzzySelectedUnion":
         params = {"TruestOrFalsest": draw(st.sampled_from(["Truest", "Falsest"])), "NumberToConsider": draw(st.integers(1, n))}
